@@ -73,6 +73,27 @@ def generate(rng, tier, cls):
              rng.below(nsec) if rng.chance(0.7) else 0]
         cfgs.append(c)
 
+    # absolute stream offsets: shift the start of a later section's header /
+    # content onto (and around) page-sized boundaries by padding the first
+    # header
+    spans = []
+
+    try:
+        R.ref_parse(data, spans)
+    except R.RefReject:
+        spans = []
+
+    if len(spans) > 1 and rng.chance(0.5):
+        for _ in range(6):
+            hs, he, ce = spans[rng.randint(1, len(spans) - 1)]
+            target = rng.choice([hs, he])
+            B2 = rng.choice([4096, 4096, 8192, 65536])
+            pad = B2 + rng.randint(-2, 2) - target - 6
+
+            if pad > 0:
+                cfgs.append([pad, rng.choice([96, 96, 1, 64, 4096]), 'sim',
+                             None, 0])
+
     return {'actors': [prod], 'schedule': [], 'faults': [], 'configs': cfgs}
 
 
